@@ -208,3 +208,51 @@ func vxH_C04_sessions() {
 	coll.Close()
 	store.Close()
 }
+
+func init() { vxRegister("vxH_C04_reopenRace", vxH_C04_reopenRace) }
+
+// vxH_C04_reopenRace: a full compaction supersedes the first data file
+// while a store snapshot still holds it; snapshot, collection and store are
+// closed, which schedules the asynchronous removal of that file, and the
+// directory is reopened right away - the removal goroutine runs at an
+// arbitrary point of the reopen (schedules with a bounded number of
+// pre-emptions). The reopen succeeds and returns the persisted content.
+func vxH_C04_reopenRace() {
+	fs := vxNewFS()
+	so := vxStoreOptions(fs)
+	po := StorePersistOptions{CompactionConcern: CompactionForce}
+	store, coll, err := OpenStoreCollection(fs.dir, so, po)
+	vxAssert("open-ok", err == nil)
+	var layers [][]vxEnt
+	var K vxKey
+	K.n = 1
+	K.b[0] = 'k'
+	var held Snapshot
+	for r := 0; r < 2; r++ {
+		ents := vxFixedSet()
+		vxExec(coll, ents)
+		layers = append(layers, ents)
+		vxDrain(coll)
+		if r == 0 {
+			ss, serr := store.Snapshot()
+			vxAssert("store-snapshot-ok", serr == nil)
+			held = ss // held across the compaction of the next round
+		}
+	}
+	vxObserveInt("files-before-close", len(fs.names()))
+	held.Close()
+	coll.Close()
+	store.Close()
+	// no quiesce: the removal of the superseded file may still be pending
+	store2, coll2, err2 := OpenStoreCollection(fs.dir, so, po)
+	vxAssert("reopen-ok", err2 == nil)
+	if err2 != nil {
+		return
+	}
+	got, gerr := coll2.Get(vxKeyBytes(K), ReadOptions{})
+	vxAssert("reopen-get-ok", gerr == nil)
+	vxAssert("reopened-content-equals-reference", vxGotIs(got, vxRefGet(K, layers...)))
+	coll2.Close()
+	store2.Close()
+	vxQuiesce()
+}
